@@ -88,6 +88,7 @@ def run_vx_unit(unit: str, repo: str, scratch: str, tier: str, log: List[str]):
     info["rewrites_applied"] = {e.name: e.rewrites for e in verify if e.rewrites}
     info["variant_split_functions"] = [e.name for e in ub.emitted if e.kind == "split-summary"]
     info["carved_blocks"] = ub.carved
+    info["not_under_contract"] = getattr(ub, "arm_notes", [])
     info["source_sha256"] = {e.name: e.sha256 for e in verify}
     if r.status == "undecided" and not r.fns:
         reason = r.reason or "verus gave no per-function result"
